@@ -2,6 +2,8 @@ package c09
 
 import (
 	"encoding/hex"
+	"encoding/json"
+	"fmt"
 	"math/big"
 
 	"verif/internal/fw"
@@ -18,6 +20,15 @@ type op struct {
 	N int    `json:"n,omitempty"` // revert target (index in the live snapshot stack), topic count, tx index, copy side
 	D bool   `json:"d,omitempty"` // delete-empty flag of finalise / iroot / commit
 	M string `json:"m,omitempty"` // how the case continues after commit: same | fresh | copy | reset
+}
+
+// MarshalJSON writes the operation compactly (kind:address:slot:value:u:n:flag:mode).
+func (o op) MarshalJSON() ([]byte, error) {
+	d := 0
+	if o.D {
+		d = 1
+	}
+	return json.Marshal(fmt.Sprintf("%s:%d:%d:%s:%d:%d:%d:%s", o.K, o.A, o.S, o.V, o.U, o.N, d, o.M))
 }
 
 func (o *op) big() *big.Int {
@@ -42,7 +53,9 @@ func unhx(s string) []byte {
 	return b
 }
 
-var templates = []string{"none", "revert_suicide_recreated", "touch_revert_write", "nested", "block", "copy", "suicide_recreate", "shared_code", "revert_suicide_recreated2", "touch_revert_write_late"}
+// template schedule by case index (every class required by the gate is forced)
+var templates = []string{"none", "revert_suicide_recreated", "block", "nested", "touch_revert_write", "copy", "suicide_recreate", "block", "revert_suicide_recreated2", "none",
+	"shared_code", "nested", "block", "copy", "touch_revert_write_late", "revert_suicide_recreated", "none", "block", "copy", "nested"}
 
 type gen struct {
 	r  *fw.Rand
@@ -403,16 +416,17 @@ func (g *gen) template() {
 		// what block processing does: per transaction prepare, snapshot, operations,
 		// sometimes a revert, then finalise or intermediate root; commit at the end
 		fl := g.flag()
-		for tx := 0; tx < r.Range(2, 4); tx++ {
+		ntx := r.Range(2, 4)
+		for tx := 0; tx < ntx; tx++ {
 			g.emit(op{K: "prepare", N: tx})
-			g.emit(op{K: "subbal", A: 2, V: "01"})
+			g.subbal(2)
 			g.emit(op{K: "setnonce", A: 2, U: uint64(tx + 2)})
 			g.emit(op{K: "snap"})
 			k := len(g.g.snaps) - 1
 			for j := r.Range(2, 6); j > 0; j-- {
 				g.randomOpNoSync()
 			}
-			if r.Chance(1, 3) {
+			if r.Chance(1, 3) && len(g.g.snaps) > k {
 				g.emit(op{K: "revert", N: k})
 			}
 			g.emit(op{K: "addbal", A: 0, V: "05"})
@@ -490,7 +504,7 @@ func genCase(r *fw.Rand, idx int) *caseInput {
 	switch x := r.Intn(20); {
 	case x < 8:
 		cs.Policy = "false"
-	case x < 17:
+	case x < 18:
 		cs.Policy = "true"
 	default:
 		cs.Policy = "mixed"
